@@ -99,6 +99,26 @@ def disjTops (w : World) (nv : Nat) : List Top → Bool
                                 && (allNodes t.body).all (fun n => !(allNodes t'.body).contains n))
                && disjTops w nv ts
 
+/-- `["rv",v] ["rn",n,op] ["nv",v] ["sv",v,name|null] ["sn",n,name|null] ["dv",v] ["dn",n]` -/
+def parseGOp (j : Json) : Except String GOp := do
+  let a ← j.getArr?
+  let k ← (a[0]?.getD Json.null).getStr?
+  let i ← (a[1]?.getD Json.null).getNat?
+  match k with
+  | "rv" => return .regValue i
+  | "rn" => return .regNode i (← (a[2]?.getD Json.null).getStr?)
+  | "nv" => return .noteValue i
+  | "sv" => return .setValue i (← optStr (a[2]?.getD Json.null))
+  | "sn" => return .setNode i (← optStr (a[2]?.getD Json.null))
+  | "dv" => return .dropValue i
+  | "dn" => return .dropNode i
+  | _ => throw s!"bad graph op {k}"
+
+/-- executable form of `Pairwise DisjointL` -/
+def pairwiseDisjoint : List (List Nat) → Bool
+  | [] => true
+  | l :: ls => ls.all (fun l' => l.all (fun x => !l'.contains x)) && pairwiseDisjoint ls
+
 def handle : Handler := fun m j =>
   match m with
   | "names.hist" => some do
@@ -108,6 +128,16 @@ def handle : Handler := fun m j =>
                   ("gen", Json.arr (evs.map (fun e => Json.bool e.generated)).toArray),
                   ("vc", toJson a.vc), ("nc", toJson a.nc),
                   ("vnames", strsJ a.vnames.eraseDups), ("nnames", strsJ a.nnames.eraseDups)]
+  | "names.ghist" => some do
+      let vn ← getOptStrs j "vnames"
+      let nn ← getOptStrs j "nnames"
+      let ops ← (← getArr j "ops").mapM parseGOp
+      let st := grun ops { vname := fun i => vn.getD i none, nname := fun i => nn.getD i none }
+      return obj [("vnames", Json.arr ((List.range vn.length).map fun i => optStrJ (st.vname i)).toArray),
+                  ("nnames", Json.arr ((List.range nn.length).map fun i => optStrJ (st.nname i)).toArray),
+                  ("vc", toJson st.auth.vc), ("nc", toJson st.auth.nc),
+                  ("vseen", strsJ st.auth.vnames.eraseDups), ("nseen", strsJ st.auth.nnames.eraseDups),
+                  ("vown", natsJ st.vown.eraseDups), ("nown", natsJ st.nown.eraseDups)]
   | "names.fix" => some do
       let (w, nv, nn, ng) ← parseWorld j
       let tops ← (← getArr j "tops").mapM parseTop
@@ -118,12 +148,23 @@ def handle : Handler := fun m j =>
       let hNodup := tops.all (fun t => decide (allNodes t.body).Nodup)
       return obj (worldJ r.1 nv nn ng ++ [("modified", Json.bool r.2.1), ("raised", Json.bool r.2.2),
         ("scoped", Json.bool hScoped), ("closed", Json.bool hClosed), ("nodup", Json.bool hNodup),
-        ("disjoint", Json.bool (disjTops w nv tops))])
+        ("disjoint", Json.bool (disjTops w nv tops)),
+        ("wellOwned", Json.bool (tops.all (fun t => wellOwnedB w.inits t.tr []))),
+        ("ownedDisjoint", Json.bool (tops.all (fun t => pairwiseDisjoint (ownedLists w.inits t.tr))))])
   | "names.rename" => some do
       let (w, nv, nn, ng) ← parseWorld j
       let pairs ← (← getArr j "pairs").mapM parsePair
-      let r := renameValues w pairs
-      return obj (worldJ r.1 nv nn ng ++ [("raised", Json.bool r.2)])
+      let co ← (getOptNats j "constOf" <|> pure [])
+      let tn ← (getOptStrs j "tnames" <|> pure [])
+      let fz ← (getNats j "frozen" <|> pure [])
+      let tw : TWorld := { toWorld := w, constOf := fun i => co.getD i none, tname := fun t => tn.getD t none,
+                           frozen := fun t => fz.contains t }
+      let r := renameValuesT tw pairs
+      -- the tensor-free model must agree with the tensor model whenever no tensor refuses
+      let r0 := renameValues w pairs
+      return obj (worldJ r.1.toWorld nv nn ng ++ [("raised", Json.bool r.2),
+        ("tnames", Json.arr ((List.range tn.length).map fun t => optStrJ (r.1.tname t)).toArray),
+        ("raised0", Json.bool r0.2), ("vnames0", Json.arr ((List.range nv).map fun i => optStrJ (r0.1.vname i)).toArray)])
   | _ => none
 
 end IrVerif.Drive.Names
